@@ -44,6 +44,9 @@ FNS = [
     dict(file="src/mtu.rs", fn="on_payload_delivered", assign="self.min_ss", lean="deliveredMinSs", params=[("payload_size", "usize")], lets=True),
     dict(file="src/mtu.rs", fn="on_payload_delivered", assign="self.max_ss", lean="deliveredMaxSs", params=[]),
     dict(file="src/stream_dispatch.rs", fn="rx_window", lean="rxWindow"),
+    dict(file="src/constants.rs", fn="calc_pipe_expiry", lean="calcPipeExpiry"),
+    dict(file="src/recovery.rs", fn="cwnd", lean="recoveringCwndLeft"),          # first `fn cwnd`: Recovering::cwnd
+    dict(file="src/stream_rx.rs", fn="window", lean="msgQueueWindow"),           # MsgQueue::window
     dict(file="src/stream_dispatch.rs", fn="immediate_ack_to_transmit", lean="immediateAckToTransmit"),
 ]
 
